@@ -259,6 +259,39 @@ func (a *Act) defaultCall(st *State, key string, f *ssa.Function, args []Val, re
 	return res
 }
 
+// bumpTop advances the allocation watermark after a call: whatever the callee allocated (including its results)
+// lies at or below the new watermark, so later allocations are distinct from it.
+func (a *Act) bumpTop(st *State, res Val) {
+	vc := a.vc
+	ntop := vc.fresh("top", sInt)
+	vc.assume("true", "(>= "+ntop+" "+st.top+")")
+	var rec func(v Val)
+	rec = func(v Val) {
+		if v.Tup != nil {
+			for _, x := range v.Tup {
+				rec(x)
+			}
+			return
+		}
+		if v.T == nil || v.S == "" {
+			return
+		}
+		if _, isTP := isTypeParam(v.T); isTP {
+			return
+		}
+		switch v.T.Underlying().(type) {
+		case *types.Pointer, *types.Map, *types.Chan:
+			vc.assume("true", "(<= (base "+v.S+") "+ntop+")")
+		case *types.Slice:
+			vc.assume("true", "(<= (base (sl_arr "+v.S+")) "+ntop+")")
+		case *types.Interface:
+			vc.assume("true", "(<= (base (ival "+v.S+")) "+ntop+")")
+		}
+	}
+	rec(res)
+	st.top = ntop
+}
+
 // ---- contracts at call sites ----
 
 // bindParams builds the spec variable map for a call of a contracted function.
@@ -301,11 +334,52 @@ func (a *Act) applyContract(st *State, con *Contract, f *ssa.Function, sig *type
 		short = short[i+1:]
 	}
 	env := &SpecEnv{a: a, vc: vc, eng: a.eng, st: st, old: st, vars: vars, pkg: a.eng.pkgOfKey(key, a)}
+	// a concrete method that implements an interface contract: callers see both contracts
+	var icon *Contract
+	ivars := map[string]Val{}
+	if ik := con.Opts["implements"]; ik != "" && f != nil {
+		if !strings.Contains(ik, "/") && f.Pkg != nil {
+			ik = f.Pkg.Pkg.Path() + "." + ik
+		}
+		if icon = a.eng.contracts[ik]; icon != nil && len(args) > 0 {
+			iv := a.makeIface(st, args[0], a.eng.ifaceTypeOf(ik, f))
+			for k, v := range vars {
+				ivars[k] = v
+			}
+			for i, n := range icon.Params {
+				if i == 0 {
+					ivars[n] = iv
+				} else if i < len(args) {
+					ivars[n] = args[i]
+				}
+			}
+			vars["self"] = iv
+		}
+	}
+	envFor := func(c *Clause, base *SpecEnv) *SpecEnv {
+		if icon == nil {
+			return base
+		}
+		for _, lst := range [][]*Clause{icon.Requires, icon.Ensures, icon.Modifies} {
+			for _, x := range lst {
+				if x == c {
+					n := *base
+					n.vars = ivars
+					return &n
+				}
+			}
+		}
+		return base
+	}
+	reqs := append(append([]*Clause(nil), con.Requires...), con.Represents...)
+	if icon != nil {
+		reqs = append(reqs, icon.Requires...)
+	}
 	// preconditions
-	for i, c := range con.Requires {
+	for i, c := range reqs {
 		name := a.oblName("pre@" + short)
 		_ = i
-		v, err := env.evalBool(c.Expr)
+		v, err := envFor(c, env).evalBool(c.Expr)
 		if err != nil {
 			vc.oblige(name, "pre", a.props, a.pos(pos), st.guard, "false", "contract error: "+err.Error()+" in: "+c.Text)
 			continue
@@ -324,6 +398,11 @@ func (a *Act) applyContract(st *State, con *Contract, f *ssa.Function, sig *type
 	pre := st.clone()
 	// frame
 	a.applyModifies(st, con, env.with(pre))
+	if icon != nil {
+		ienv := *env
+		ienv.vars = ivars
+		a.applyModifies(st, icon, ienv.with(pre))
+	}
 	// results
 	res := a.freshVal("r_"+sanitize(shortName(key)), resT)
 	post := &SpecEnv{a: a, vc: vc, eng: a.eng, st: st, old: pre, vars: map[string]Val{}, pkg: env.pkg}
@@ -331,8 +410,13 @@ func (a *Act) applyContract(st *State, con *Contract, f *ssa.Function, sig *type
 		post.vars[k] = v
 	}
 	bindResults(post.vars, res, sig)
-	for _, c := range con.Ensures {
-		v, err := post.evalBool(c.Expr)
+	enss := append(append([]*Clause(nil), con.Represents...), con.Ensures...)
+	if icon != nil {
+		bindResults(ivars, res, sig)
+		enss = append(enss, icon.Ensures...)
+	}
+	for _, c := range enss {
+		v, err := envFor(c, post).evalBool(c.Expr)
 		if err != nil {
 			vc.oblige(a.oblName("contract-error"), "pre", a.props, a.pos(pos), st.guard, "false", "contract error in ensures of "+key+": "+err.Error()+" in: "+c.Text)
 			continue
@@ -342,6 +426,7 @@ func (a *Act) applyContract(st *State, con *Contract, f *ssa.Function, sig *type
 	if con.Trusted {
 		vc.noteAssumed("trusted contract: " + key)
 	}
+	a.bumpTop(st, res)
 	return res
 }
 
